@@ -126,39 +126,22 @@ theorem nested_wrapped (k : Bool) (fuel : Nat) (defs : List (Bool × List Instr)
   ⟨((runScript_spec k fuel script _ (topInv_init defs hw)).1).good.nrecs,
    fun o ho _ => gen_ctx_private k fuel defs hw script o ho⟩
 
-/-- a returned value becomes `None`; everything else is untouched -/
-def dropRet : Out → Out
-  | .returned _ => .returned none
-  | o => o
+/-- the current source has `except StopIteration as e: return e.value` (regenerated on every run) -/
+theorem keepsReturn_current : Gen.keepsReturn = true := by decide
 
-/- FULL STATEMENT (C15, "the generator's return value reach[es] the other side unchanged"):
-     theorem wrapper_transparent {σ} (g : Body σ) (s0 : σ) (inputs : List Inp) :
-         wrapOutputs g s0 inputs = outputs g s0 inputs
-   FALSE on the pinned tree (`except StopIteration: break`): see `wrapper_drops_return_value`.
-   It is `wrapFixed_transparent` below for the repaired wrapper; after the repair set
-   `Gen.keepsReturn := true` (one line in Eliot/Conc/Gen.lean) and this becomes
-   `wrapFixed_transparent g s0 inputs`. -/
+/-- **Transparency at full strength** (the tree under verification): for every generator body and every
+sequence of `send` / `throw` / `close`, the decorated generator produces exactly the outputs of the
+plain one — yielded values, the values it is sent (they reach the body unchanged), thrown exceptions
+by identity, close(), the errors of the generator protocol, and the return value. -/
+theorem wrapper_transparent {σ : Type} (g : Body σ) (s0 : σ) (inputs : List Inp) :
+    wrapOutputs g s0 inputs = outputs g s0 inputs := by
+  unfold wrapOutputs
+  rw [keepsReturn_current, wrapOutputsK_eq]
+  conv => rhs; rw [← List.map_id (outputs g s0 inputs)]
+  congr 1
+  funext o; exact retK_true o
 
-/-- **Transparency except for the return value** (the tree under verification): yielded values, sent
-values, thrown exceptions (by identity), close() and every error of the generator protocol cross
-the wrapper unchanged, for every generator body and every input sequence; a `returned v` of the plain
-generator is a `returned none` of the wrapped one. -/
-theorem wrapper_transparent_partial {σ : Type} (g : Body σ) (s0 : σ) (inputs : List Inp) :
-    wrapOutputsK false g s0 inputs = (outputs g s0 inputs).map dropRet := by
-  have h : retK false = dropRet := by funext o; cases o <;> rfl
-  rw [wrapOutputsK_eq, h]
-
-/-- the wrapper of the tree under verification is the `keepsReturn = false` one -/
-theorem wrapOutputs_pinned {σ : Type} (g : Body σ) (s0 : σ) (inputs : List Inp) :
-    wrapOutputs g s0 inputs = wrapOutputsK false g s0 inputs := rfl
-
-/-- **Refutation of full transparency on the pinned tree**: `def g(): return 7; yield`, driven by one
-`next()`. -/
-theorem wrapper_drops_return_value :
-    ∃ (g : Body Unit) (inputs : List Inp), wrapOutputs g () inputs ≠ outputs g () inputs :=
-  ⟨⟨fun _ s => (.returned (some 7), s)⟩, [.send none], by decide⟩
-
-/-- **Full transparency of the repaired wrapper** (`except StopIteration as e: return e.value`). -/
+/-- the same for the `return e.value` shape, independent of what the extractor says -/
 theorem wrapFixed_transparent {σ : Type} (g : Body σ) (s0 : σ) (inputs : List Inp) :
     wrapFixedOutputs g s0 inputs = outputs g s0 inputs := by
   unfold wrapFixedOutputs
@@ -167,14 +150,34 @@ theorem wrapFixed_transparent {σ : Type} (g : Body σ) (s0 : σ) (inputs : List
   congr 1
   funext o; exact retK_true o
 
+/-- a returned value becomes `None`; everything else is untouched -/
+def dropRet : Out → Out
+  | .returned _ => .returned none
+  | o => o
+
+/-- **The OLD shape** (`except StopIteration: break`, the tree as originally pinned) is transparent
+except for the return value: a `returned v` of the plain generator is a `returned none` of the
+wrapped one, everything else is equal. -/
+theorem wrapper_transparent_partial {σ : Type} (g : Body σ) (s0 : σ) (inputs : List Inp) :
+    wrapOutputsK false g s0 inputs = (outputs g s0 inputs).map dropRet := by
+  have h : retK false = dropRet := by funext o; cases o <;> rfl
+  rw [wrapOutputsK_eq, h]
+
+/-- **Refutation of full transparency for the OLD shape** (`break`): `def g(): return 7; yield`,
+driven by one `next()`.  This was the defect found on the pinned tree (repaired by
+`fix: eliot_friendly_generator_function passes on the generator's return value`). -/
+theorem wrapper_drops_return_value :
+    ∃ (g : Body Unit) (inputs : List Inp), wrapOutputsK false g () inputs ≠ outputs g () inputs :=
+  ⟨⟨fun _ s => (.returned (some 7), s)⟩, [.send none], by decide⟩
+
 /-! ## Generated-skeleton obligation: the loop that was transliterated is the loop in the source -/
 
 /-- `context = copy_context()` once, before `while True`; `gen.send/throw` only inside the function
-given to `context.run`; `except StopIteration` is `break` (pinned) / `return e.value` (repaired)
-according to `Gen.keepsReturn`; no other handler around `context.run`; bare `except` around the one `yield`. -/
+given to `context.run`; `except StopIteration` is `return e.value`; no other handler around
+`context.run`; bare `except` around the one `yield`. -/
 def assumedWrapper : Eliot.Generated.GenWrapperSkel :=
-  { copyOnceBeforeLoop := true, sendOrThrowInsideRun := true,
-    stop := if Gen.keepsReturn then .returnValue else .break_, otherHandlers := 0, bareExceptAroundYield := true }
+  { copyOnceBeforeLoop := true, sendOrThrowInsideRun := true, stop := .returnValue, otherHandlers := 0,
+    bareExceptAroundYield := true }
 
 example : Eliot.Generated.genWrapper = assumedWrapper := by decide
 
@@ -223,6 +226,8 @@ def echo : Body (Option Nat) :=
 example : outputs echo none [.send none, .send (some 4), .throw (.user 2), .close, .send none] =
     [.yielded none, .yielded (some 4), .yielded (some 102), .returned none, .returned none] := by decide
 example : wrapOutputs echo none [.send none, .send (some 4), .throw (.user 2), .throw .typeErr] =
+    [.yielded none, .yielded (some 4), .yielded (some 102), .returned (some 4)] := by decide
+example : wrapOutputsK false echo none [.send none, .send (some 4), .throw (.user 2), .throw .typeErr] =
     [.yielded none, .yielded (some 4), .yielded (some 102), .returned none] := by decide
 example : outputs echo none [.send none, .send (some 4), .throw (.user 2), .throw .typeErr] =
     [.yielded none, .yielded (some 4), .yielded (some 102), .returned (some 4)] := by decide
